@@ -79,10 +79,14 @@ theorem wf_tryReserve {cap : Nat} {held : List Key} {s : Store τ} (h : WF cap h
   cases hfl : s.ctrl.freeList with
   | nil =>
     simp [hfl] at cnt
-    simp [tryReserve, Controller.tryReserve, hfl, ReserveSpec, cnt]
+    by_cases h0 : s.ctrl.capacity = 0
+    · simp only [Controller.capacity] at h0
+      simp [tryReserve, Controller.capacity, h0, ReserveSpec, cnt]
+    · simp [tryReserve, Controller.tryReserve, hfl, ReserveSpec, cnt, h0]
   | cons i rest =>
     obtain ⟨sl, hsl, hfree⟩ := fo i (by simp [hfl])
     have hi : i < cap := by have := getElem?_lt hsl; omega
+    have h0 : s.ctrl.capacity ≠ 0 := by simp only [Controller.capacity]; omega
     have hlen := len_set s.ctrl i sl { sl with free := false } hsl
     simp [hfree] at hlen
     simp [hfl] at cnt fn
@@ -90,7 +94,7 @@ theorem wf_tryReserve {cap : Nat} {held : List Key} {s : Store τ} (h : WF cap h
       intro hmem
       obtain ⟨sl2, h2, hf2⟩ := oo i hmem
       rw [hsl] at h2; cases h2; simp [hfree] at hf2
-    simp only [tryReserve, Controller.tryReserve, hfl, hsl, ReserveSpec]
+    simp only [tryReserve, h0, if_false, Controller.tryReserve, hfl, hsl, ReserveSpec]
     have hil := getElem?_lt hsl
     refine ⟨⟨?_, ?_, ?_, ?_, ?_, ?_, ?_, ?_, ?_, ?_, ?_, ?_, ?_, ?_⟩, by omega, ?_, hi, ?_, ?_, trivial, trivial, trivial, trivial, hnot⟩
     all_goals (simp only [Controller.len, Controller.generation, ownIdx, List.map_cons, List.cons_append, List.length_cons, List.length_set] at *)
